@@ -43,6 +43,30 @@ pub fn inputs_c01(r: &mut Rng, n: usize, _tier: &str, out: &mut dyn Write) {
             }
         }
     }
+    // result-on-a-century block for Mul<i64> / Div<i64>: products and quotients that are an exact whole number of
+    // centuries (where the (centuries, nanoseconds) form of the RESULT rolls over), one nanosecond either side, all sign
+    // combinations (a seeded change that built negative products by hand left (-k-1, one century) for them)
+    if n >= 2000 {
+        for u in [86_400_000_000_000i128, 21_600_000_000_000, 3_600_000_000_000, 60_000_000_000, 1_000_000_000, 1_000_000, 1] {
+            for m in [1i128, 2, 3, 5] {
+                for (sd, sq) in [(1i128, 1i128), (-1, 1), (1, -1), (-1, -1)] {
+                    let q = sq * m * (NPC / u);
+                    if q.abs() < i64::MAX as i128 {
+                        for dd in [-1i128, 0, 1] {
+                            writeln!(out, "muli {} {}", dstr(sd * u + dd), q).unwrap();
+                            writeln!(out, "imul {} {}", q, dstr(sd * u + dd)).unwrap();
+                            n -= 2;
+                        }
+                    }
+                    // quotient: (m centuries x k) / k
+                    let k = sq * (2 + (u % 7));
+                    writeln!(out, "divi {} {}", dstr(sd * m * NPC * k.abs()), k).unwrap();
+                    writeln!(out, "divi {} {}", dstr(sd * m * NPC * k.abs() + sd), k).unwrap();
+                    n -= 2;
+                }
+            }
+        }
+    }
     for _ in 0..n {
         let a = total(r);
         match r.below(16) {
